@@ -9,6 +9,15 @@ COMMON_ASSUME = [
     'Hypothesis 6.168 supplies generation and shrinking only; oracles and models are in /verif/gnpysim',
 ]
 
+E3_COMPONENTS = {'real': ['gnpy.tools.worker_utils.planning and everything below it (requests_from_json, aggregation, '
+                          'compute_path_dsjctn, compute_path_with_disjunction, propagate, propagate_and_optimize_mode, all '
+                          'elements, science_utils solvers, build_oms_list, pth_assign_spectrum, ResultElement, jsontocsv)',
+                          'json_io loaders (_equipment_from_json, network_from_json), auto-design (designed_network)'],
+                 'stubbed': ['nothing of gnpy; failures are injected by class-level wrappers around element __call__ and '
+                             'the Raman/NLI solver entry points (gnpysim/taps.py)']}
+E3_ASSUME = ['worlds are small (2-5 ROADM sites, <= ~90 elements after design), single-band amplifiers',
+             'a crash of a planning call is modelled by an exception raised at a drawn element crossing / solver call']
+
 PROPS = {
     'C14': {
         'engine': 'e2', 'module': 'gnpysim.e2_spectrum',
@@ -36,5 +45,35 @@ PROPS = {
                                 'OMS.update_spectrum/assign_spectrum, pth_assign_spectrum)'],
                        'stubbed': ['path elements (objects carrying only oms_id) in the synthetic layer']},
         'assumptions': COMMON_ASSUME,
+    },
+    'C16': {
+        'engine': 'e3', 'module': 'gnpysim.e3_planning',
+        'tiers': {
+            'quick': {'tasks': 32, 'max_examples': 12, 'step_count': 6, 'shrink_seconds': 60, 'task_timeout': 1500},
+            'thorough': {'tasks': 256, 'max_examples': 60, 'step_count': 10, 'shrink_seconds': 400,
+                         'task_timeout': 7000},
+        },
+        'components': E3_COMPONENTS, 'assumptions': COMMON_ASSUME + E3_ASSUME,
+    },
+    'C13': {
+        'engine': 'e3', 'module': 'gnpysim.e3_planning',
+        'tiers': {
+            'quick': {'tasks': 32, 'max_examples': 12, 'step_count': 5, 'shrink_seconds': 60, 'task_timeout': 1500},
+            'thorough': {'tasks': 256, 'max_examples': 60, 'step_count': 8, 'shrink_seconds': 400,
+                         'task_timeout': 7000},
+        },
+        'components': E3_COMPONENTS, 'assumptions': COMMON_ASSUME + E3_ASSUME + [
+            'physical line figures (raw GSNR, CD, PMD, PDL at the receiver) come from a real propagate() call on a '
+            'fresh copy; transmitter/ROADM OSNR, penalties, minimum, rounding and threshold are recomputed independently',
+            'cases with |metric - threshold| < 0.011 dB and ties of equal (baud rate, bit rate) are not judged'],
+    },
+    'C19': {
+        'engine': 'e3', 'module': 'gnpysim.e3_planning',
+        'tiers': {
+            'quick': {'tasks': 32, 'max_examples': 14, 'step_count': 6, 'shrink_seconds': 60, 'task_timeout': 1500},
+            'thorough': {'tasks': 256, 'max_examples': 70, 'step_count': 10, 'shrink_seconds': 400,
+                         'task_timeout': 7000},
+        },
+        'components': E3_COMPONENTS, 'assumptions': COMMON_ASSUME + E3_ASSUME,
     },
 }
